@@ -2,6 +2,7 @@
 
 from __future__ import annotations
 
+import asyncio
 import json
 import random
 from datetime import datetime as dt, timedelta as td
@@ -42,8 +43,8 @@ def run(chk: Check) -> None:
     def entry_frame(verb: str, idx: int, k: int) -> str:
         cmd = Command._put_system_log_entry(
             CTL, FaultState.FAULT if k % 2 else FaultState.RESTORE, FaultType.BATTERY_LOW, FaultDeviceClass.ACTUATOR,
-            device_id="04:111111", domain_idx="01", _log_idx=idx, timestamp=stamp(k))
-        payload = cmd.payload
+            device_id="04:111111", domain_idx="01", _log_idx=min(idx, 0x3E), timestamp=stamp(k))
+        payload = cmd.payload[:4] + f"{idx:02X}" + cmd.payload[6:]  # (the constructor is a test helper limited to 0x3E)
         if verb == " I":
             return f" I --- {CTL} --:------ {CTL} 0418 022 {payload}"
         return f"RP --- {CTL} {GWY} --:------ 0418 022 {payload}"
@@ -61,12 +62,17 @@ def run(chk: Check) -> None:
         return round((d - T0).total_seconds() / 60)
 
     found_classes: dict[str, int] = {}
+    lost_any = top_unknown = False
+
+    def taint() -> str:
+        return ".after-lost-announcement" if lost_any else ".after-top-unknown-announcement" if top_unknown else ""
+
     for h in range(N):
         tcs = SimpleNamespace(id=CTL, _gwy=SimpleNamespace())
         flog = FaultLog(tcs)
         ctl: list[int] = []          # controller's log, newest first (stamps as minute counters)
         clock = 0
-        for _ in range(rnd.choice((0, 0, 2, 5))):  # entries logged before we started listening
+        for _ in range(rnd.choice((0, 0, 2, 5, 5, 61, 62, 63, 64, 70) if h % 5 == 0 else (0, 0, 2, 5))):  # entries logged before we started listening
             clock += rnd.randint(1, 5)
             ctl.insert(0, clock)
         reported: set[int] = set()
@@ -74,6 +80,7 @@ def run(chk: Check) -> None:
         maps: list[str] = []
         steps = rnd.randint(3, 14)
         lost_any = False
+        top_unknown = False   # an announcement arrived while position 0 was unknown (recorded finding): the view is off by one since
         ok_hist = True
         for _ in range(steps):
             r = rnd.random()
@@ -90,8 +97,10 @@ def run(chk: Check) -> None:
                         after = {i: stamp_to_k(d) for i, d in flog._map.items()}
                         want = {0: clock, **{i + 1: v for i, v in before.items() if i + 1 <= 0x3E}}
                         if after != want:
-                            _viol(chk, found_classes, "announce-shift" + (".top-unknown" if 0 not in before else "") + (".after-lost-announcement" if lost_any else ""), evs,
+                            _viol(chk, found_classes, "announce-shift" + (".top-unknown" if 0 not in before else "") + taint(), evs,
                                   f"an announcement of a new entry turned the view {before} into {after}, not {want}")
+                            if 0 not in before:
+                                top_unknown = True
                     else:
                         lost_any = True
                         continue
@@ -104,6 +113,60 @@ def run(chk: Check) -> None:
                     else:
                         flog._process_msg(msg_null(flog, i))
                         evs.append(f"N{i}")
+                elif r < 0.85 or len(ctl) > 40:  # the library's own read-through: get_faultlog(start, limit) against the controller
+                    start = rnd.choice((0, 0, 0, 1, 3, 60, 63))
+                    limit = rnd.choice((None, 6, 1, 3, 64, 64, 65, 100))
+                    del ctl[64:]
+                    before_evs = list(evs)
+
+                    async def fake_send(cmd, **kw):
+                        i = int(cmd.payload[4:6], 16)
+                        asked.append(i)
+                        if i < len(ctl):
+                            reported.add(ctl[i])
+                            return Packet(dt.now(), "... " + entry_frame("RP", i, ctl[i]))
+                        return Packet(dt.now(), f"... RP --- {CTL} {GWY} --:------ 0418 022 {NULL}")
+
+                    asked: list[int] = []
+                    flog._gwy.async_send_cmd = fake_send
+                    orig_process = flog._process_msg
+
+                    def spy(msg, orig_process=orig_process):
+                        orig_process(msg)
+                        maps.append(_show(flog, stamp_to_k))
+
+                    flog._process_msg = spy
+                    try:
+                        asyncio.run(flog.get_faultlog(start=start, limit=limit))
+                    finally:
+                        del flog._process_msg
+                    for i in asked:
+                        evs.append(f"E{i}:{ctl[i]}" if i < len(ctl) else f"N{i}")
+                    eff = 6 if limit is None else limit
+                    D.add("flog.get", [";".join(before_evs), ",".join(map(str, ctl)), str(start), str(eff)], "ok\t" + _show(flog, stamp_to_k))
+                    chk.count(f"get_faultlog.depth{'64' if len(ctl) == 64 else '<64'}.limit{'>=64' if eff >= 64 else '<64'}")
+                    # readthrough_exact: over the range read (the positions start .. min(start+limit, 64)-1 that the
+                    # controller has, up to and including the first empty one) the view equals the controller's log
+                    view = {i: stamp_to_k(dtm) for i, dtm in flog._map.items()}
+                    stop = min(start + eff, 64)
+                    want_asked = []
+                    for i in range(start, stop):
+                        want_asked.append(i)
+                        if i >= len(ctl):
+                            break
+                    if asked != want_asked:
+                        _viol(chk, found_classes, "readthrough.range", evs, f"get_faultlog(start={start}, limit={limit}) on a {len(ctl)}-deep log asked for {asked}, not {want_asked}")
+                        ok_hist = False
+                    for i in range(start, min(stop, len(ctl))):
+                        if view.get(i) != ctl[i]:
+                            _viol(chk, found_classes, "readthrough" + taint(), evs,
+                                  f"after get_faultlog(start={start}, limit={limit}) on a {len(ctl)}-deep log the view has {view.get(i)} at {i}, controller has {ctl[i]}")
+                            ok_hist = False
+                            break
+                    if stop > len(ctl) >= start and any(i >= len(ctl) for i in view):
+                        _viol(chk, found_classes, "readthrough.tail" + taint(), evs, f"after a read-through ending in a null entry at {len(ctl)} the view still has {sorted(view)}")
+                        ok_hist = False
+                    continue
                 else:  # a complete read-through from the top
                     n = rnd.randint(1, min(len(ctl) + 1, 8))
                     for i in range(n):
@@ -121,11 +184,11 @@ def run(chk: Check) -> None:
                     view = {i: stamp_to_k(dtm) for i, dtm in flog._map.items()}
                     for i in range(min(n, len(ctl))):
                         if view.get(i) != ctl[i]:
-                            _viol(chk, found_classes, "readthrough" + (".after-lost-announcement" if lost_any else ""), evs, f"after reading 0..{n - 1} the view has {view.get(i)} at {i}, controller has {ctl[i]}")
+                            _viol(chk, found_classes, "readthrough" + taint(), evs, f"after reading 0..{n - 1} the view has {view.get(i)} at {i}, controller has {ctl[i]}")
                             ok_hist = False
                             break
                     if n > len(ctl) and any(i >= len(ctl) for i in view):
-                        _viol(chk, found_classes, "readthrough.tail" + (".after-lost-announcement" if lost_any else ""), evs, f"after a read-through ending in a null entry at {len(ctl)} the view still has {sorted(view)}")
+                        _viol(chk, found_classes, "readthrough.tail" + taint(), evs, f"after a read-through ending in a null entry at {len(ctl)} the view still has {sorted(view)}")
                         ok_hist = False
                     continue
             except Exception as e:  # noqa: BLE001
@@ -143,11 +206,11 @@ def run(chk: Check) -> None:
                 break
             ks = [stamp_to_k(v.timestamp) for _, v in sorted(view.items())]
             if len(set(ks)) != len(ks):
-                _viol(chk, found_classes, "duplicate" + (".after-lost-announcement" if lost_any else ""), evs, f"view {dict(sorted((i, stamp_to_k(v.timestamp)) for i, v in view.items()))} shows an entry at two positions")
+                _viol(chk, found_classes, "duplicate" + taint(), evs, f"view {dict(sorted((i, stamp_to_k(v.timestamp)) for i, v in view.items()))} shows an entry at two positions")
                 ok_hist = False
                 break
             if any(a <= b for a, b in zip(ks, ks[1:])):
-                _viol(chk, found_classes, "order" + (".after-lost-announcement" if lost_any else ""), evs, f"view {dict(sorted((i, stamp_to_k(v.timestamp)) for i, v in view.items()))} is not newest-first")
+                _viol(chk, found_classes, "order" + taint(), evs, f"view {dict(sorted((i, stamp_to_k(v.timestamp)) for i, v in view.items()))} is not newest-first")
                 ok_hist = False
                 break
             if not set(ks) <= reported:
